@@ -36,12 +36,14 @@ type sched struct {
 	traceH  uint64
 	dead    bool
 	over    bool
+	failedSince map[*task]bool // tasks whose last lock attempt failed, since the last progress of anybody
+	pendingW map[*sync.RWMutex]int // tasks waiting for the write lock: a blocked Lock() excludes new readers (sync.RWMutex)
 	thin    int // one in `thin` inserted points is a real scheduling point (per run)
 }
 
 //go:norace
 func newSched(seed uint64) *sched {
-	s := &sched{rng: kernel.NewRng(seed), traceH: 1469598103934665603, maxStep: 20000}
+	s := &sched{rng: kernel.NewRng(seed), traceH: 1469598103934665603, maxStep: 20000, pendingW: map[*sync.RWMutex]int{}, failedSince: map[*task]bool{}}
 	s.thin = []int{2, 4, 8, 8, 16, 32}[s.rng.Intn(6)]
 	return s
 }
@@ -76,7 +78,7 @@ func (s *sched) body(t *task) {
 		println("   ", t.name, "ends")
 	}
 	t.done = true
-	s.stall = 0
+	s.stall, s.failedSince = 0, map[*task]bool{}
 	s.main.unpark()
 }
 
@@ -101,8 +103,20 @@ func (s *sched) run() {
 				allWaiting = false
 			}
 		}
+		// deadlock: every live task has tried for its lock and failed since anything last changed (a
+		// success of anybody, or somebody finishing, clears the set), so no further attempt can succeed
+		for _, t := range live {
+			if !s.failedSince[t] {
+				allWaiting = false
+			}
+		}
 		if allWaiting && s.stall > 4*len(live)+8 {
 			s.dead = true // everybody waits for a lock nobody will release
+			if traceSites {
+				buf := make([]byte, 1<<18)
+				n := runtime.Stack(buf, true)
+				println(string(buf[:n]))
+			}
 			break
 		}
 		if s.steps >= s.maxStep {
@@ -111,7 +125,7 @@ func (s *sched) run() {
 		}
 		t := live[s.rng.Intn(len(live))]
 		if !t.waiting {
-			s.stall = 0 // somebody who is not waiting for the lock makes progress
+			s.stall, s.failedSince = 0, map[*task]bool{} // somebody who is not waiting for the lock makes progress
 		}
 		s.steps++
 		s.mixInt(uint64(t.id))
@@ -167,6 +181,7 @@ func (s *sched) beforeLock(mu interface{}, write bool) {
 		return
 	}
 	s.yield("lock.before")
+	pending := false
 	for {
 		var got bool
 		if write {
@@ -174,6 +189,10 @@ func (s *sched) beforeLock(mu interface{}, write bool) {
 			if got {
 				m.Unlock()
 			}
+		} else if s.pendingW[m] > 0 {
+			// sync.RWMutex: "a blocked Lock call excludes new readers from acquiring the lock" - also a
+			// reader that already holds a read lock and asks again
+			got = false
 		} else {
 			got = m.TryRLock()
 			if got {
@@ -181,11 +200,19 @@ func (s *sched) beforeLock(mu interface{}, write bool) {
 			}
 		}
 		if got {
+			if pending {
+				s.pendingW[m]--
+			}
 			t.waiting = false
-			s.stall = 0
+			s.stall, s.failedSince = 0, map[*task]bool{}
 			return
 		}
+		if write && !pending {
+			pending = true
+			s.pendingW[m]++
+		}
 		t.waiting = true
+		s.failedSince[t] = true
 		s.stall++
 		s.yield("lock.wait")
 		if s.dead || s.over {
@@ -209,10 +236,11 @@ func (s *sched) beforeTry(try func() bool) {
 	for {
 		if try() {
 			t.waiting = false
-			s.stall = 0
+			s.stall, s.failedSince = 0, map[*task]bool{}
 			return
 		}
 		t.waiting = true
+		s.failedSince[t] = true
 		s.stall++
 		s.yield("lock.wait")
 		if s.dead || s.over {
@@ -274,7 +302,7 @@ func (s *sched) goDone(x interface{}) {
 		}
 	}
 	t.done = true
-	s.stall = 0
+	s.stall, s.failedSince = 0, map[*task]bool{}
 	s.main.unpark()
 }
 
